@@ -39,6 +39,17 @@ type violation struct {
 	Detail string          `json:"detail"`
 	Part   string          `json:"part"`
 	Case   json.RawMessage `json:"case"`
+
+	// Context holds the cases that the same process executed immediately
+	// before Case.  Checks that share one rig between cases replay them first,
+	// so that state carried over between cases (object pools, caches) is the
+	// same as when the violation was found.
+	Context []json.RawMessage `json:"context,omitempty"`
+
+	// Index is the enumeration index of Case within its process (all parts),
+	// used by the prefix replay: re-running the same shard up to and including
+	// that case reproduces every piece of state carried between cases.
+	Index int64 `json:"index"`
 }
 
 // Shard is the JSON document written by one check process.
@@ -72,17 +83,27 @@ type Run struct {
 	deadline time.Time
 	out      string
 	replay   json.RawMessage
-	part     string
-	states   map[[16]byte]struct{}
-	perKey   map[string]int
-	idx      int64
-	nsamples int
+	replayCx []json.RawMessage
+	recent   []json.RawMessage
+
+	// prefixIdx >= 0 selects the prefix replay mode; prefixDone is set once
+	// the target case has been run.
+	prefixIdx  int64
+	prefixDone bool
+	part       string
+	states     map[[16]byte]struct{}
+	perKey     map[string]int
+	idx        int64
+	nsamples   int
 
 	// expired is set by a timer goroutine started in Start, i.e. normally
 	// outside of any synctest bubble, so that the internal deadline follows
 	// the wall clock even when the exploration runs under a virtual clock.
 	expired atomic.Bool
 }
+
+// replayContext is the number of preceding cases kept with a violation.
+const replayContext = 4
 
 // maxPerKey is the maximum number of violations with the same key that are
 // kept with their case; the rest are only counted.
@@ -93,9 +114,10 @@ const maxPerKey = 3
 // file), VERIF_REPLAY (replay file), VERIF_BUDGET_S (internal deadline).
 func Start(id string) (r *Run) {
 	r = &Run{
-		start:  time.Now(),
-		states: map[[16]byte]struct{}{},
-		perKey: map[string]int{},
+		prefixIdx: -1,
+		start:     time.Now(),
+		states:    map[[16]byte]struct{}{},
+		perKey:    map[string]int{},
 	}
 	r.sh.Property = id
 	r.sh.Tier = os.Getenv("VERIF_TIER")
@@ -137,14 +159,20 @@ func Start(id string) (r *Run) {
 			Fatalf("reading replay file: %v", err)
 		}
 		var rf struct {
-			Part string          `json:"part"`
-			Case json.RawMessage `json:"case"`
+			Part    string            `json:"part"`
+			Case    json.RawMessage   `json:"case"`
+			Context []json.RawMessage `json:"context"`
+			Index   int64             `json:"index"`
 		}
 		if err = json.Unmarshal(data, &rf); err != nil {
 			Fatalf("decoding replay file: %v", err)
 		}
 		r.replay = rf.Case
+		r.replayCx = rf.Context
 		r.part = rf.Part
+		if os.Getenv("VERIF_REPLAY_MODE") == "prefix" {
+			r.prefixIdx = rf.Index
+		}
 		r.sh.Replay = true
 	}
 
@@ -301,10 +329,12 @@ func (r *Run) Report(part string, c any, fs []Finding) {
 			continue
 		}
 		r.sh.Violations = append(r.sh.Violations, violation{
-			Key:    f.Key,
-			Detail: f.Detail,
-			Part:   part,
-			Case:   data,
+			Key:     f.Key,
+			Detail:  f.Detail,
+			Part:    part,
+			Case:    data,
+			Context: append([]json.RawMessage{}, r.recent...),
+			Index:   r.idx - 1,
 		})
 	}
 }
@@ -313,9 +343,39 @@ func (r *Run) Report(part string, c any, fs []Finding) {
 // runCase executes one case against the real code and returns the findings.
 // In replay mode only the recorded case of the recorded part is run.
 func Part[C any](r *Run, name string, gen func(emit func(c C)), runCase func(c C) []Finding) {
+	if r.Replaying() && r.prefixIdx >= 0 {
+		// Prefix replay: run this process's share of the enumeration exactly
+		// as in the original run, up to and including the recorded case.
+		if r.prefixDone {
+			return
+		}
+		gen(func(c C) {
+			if r.prefixDone || !r.Mine() {
+				return
+			}
+			fs := runCase(c)
+			r.mu.Lock()
+			at := r.idx - 1
+			r.mu.Unlock()
+			if at >= r.prefixIdx {
+				r.prefixDone = true
+				r.Eval()
+				r.Report(name, c, fs)
+			}
+		})
+
+		return
+	}
 	if r.Replaying() {
 		if r.part != name {
 			return
+		}
+		for _, raw := range r.replayCx {
+			var cx C
+			if err := json.Unmarshal(raw, &cx); err != nil {
+				Fatalf("decoding replay context for part %s: %v", name, err)
+			}
+			_ = runCase(cx)
 		}
 		var c C
 		if err := json.Unmarshal(r.replay, &c); err != nil {
@@ -346,7 +406,18 @@ func Part[C any](r *Run, name string, gen func(emit func(c C)), runCase func(c C
 		fs := runCase(c)
 		r.Sample(c)
 		r.Report(name, c, fs)
+		if raw, err := json.Marshal(c); err == nil {
+			r.mu.Lock()
+			r.recent = append(r.recent, raw)
+			if len(r.recent) > replayContext {
+				r.recent = r.recent[len(r.recent)-replayContext:]
+			}
+			r.mu.Unlock()
+		}
 	})
+	r.mu.Lock()
+	r.recent = nil
+	r.mu.Unlock()
 }
 
 // ReplayPart reports whether part name should run: always in normal mode, and
